@@ -398,7 +398,8 @@ static void mode_decision_configuration_context_dctor(EbPtr p) {
     EB_FREE_ARRAY(obj->sb_cost_array);
     EB_FREE_ARRAY(obj->mdc_candidate_ptr);
     EB_FREE_ARRAY(obj->mdc_ref_mv_stack);
-    EB_FREE_ARRAY(obj->mdc_blk_ptr->av1xd);
+    if (obj->mdc_blk_ptr)
+        EB_FREE_ARRAY(obj->mdc_blk_ptr->av1xd);
     EB_FREE_ARRAY(obj->mdc_blk_ptr);
     EB_FREE_ARRAY(obj);
 }
